@@ -182,9 +182,9 @@ theorem clamp_inside' {z : Int} (h1 : FixpntSpec.maxnegZ n ≤ z) (h2 : z ≤ Fi
   unfold FixpntSpec.clamp
   rw [if_neg (by omega), if_neg (by omega)]
 
-/-- unary minus: two's complement, except that maxneg is replaced by maxpos — i.e. the Saturate rule in both modes -/
-theorem neg_spec (hw : 0 < w) (hn : 0 < n) (h64 : Ok w n) {a : List Nat} (ha : Canon w n a) :
-    Canon w n (neg w n a) ∧ toNat w (neg w n a) = FixpntSpec.neg n true (toNat w a) := by
+/-- unary minus in Saturate arithmetic: two's complement, except that maxneg is replaced by maxpos — the exact negation clamped -/
+theorem neg_spec_sat (hw : 0 < w) (hn : 0 < n) (h64 : Ok w n) {a : List Nat} (ha : Canon w n a) :
+    Canon w n (neg w n true a) ∧ toNat w (neg w n true a) = FixpntSpec.neg n true (toNat w a) := by
   obtain ⟨ht, htv⟩ := BB.twosC_spec hw hn h64 ha.shape
   obtain ⟨hmn, hmnv⟩ := BB.maxneg_spec (w := w) hw hn
   obtain ⟨hf, hfv⟩ := BB.flip_spec hw hn ht.shape
@@ -197,7 +197,7 @@ theorem neg_spec (hw : 0 < w) (hn : 0 < n) (h64 : Ok w n) {a : List Nat} (ha : C
     · have : toNat w (BB.twosC w n a) ≠ 2 ^ (n - 1) := fun e => h (toNat_inj ht.2.1 hmn.2.1 (by rw [ht.1, hmn.1]) (by rw [e, hmnv]))
       simp [h, this]
   unfold neg FixpntSpec.neg FixpntSpec.finish FixpntSpec.val
-  simp only [if_true]
+  simp only [if_true, Bool.true_and]
   rw [hmx]
   rw [Nat.mod_eq_of_lt hA] at htv
   have hx := toSigned_of_lt hn hA
@@ -249,6 +249,21 @@ theorem neg_spec (hw : 0 < w) (hn : 0 < n) (h64 : Ok w n) {a : List Nat} (ha : C
         · have : ((2 ^ (n - 1) : Nat) : Int) ≤ ((toNat w a : Nat) : Int) := by exact_mod_cast (Nat.le_of_not_lt h)
           rw [if_neg h]; omega
     rw [hcl, ofSigned_neg, Nat.mod_eq_of_lt hA, htv]
+
+/-- unary minus in Modulo arithmetic: the two's complement, i.e. the exact negation wrapped (−maxneg = maxneg) -/
+theorem neg_spec_mod (hw : 0 < w) (hn : 0 < n) (h64 : Ok w n) {a : List Nat} (ha : Canon w n a) :
+    Canon w n (neg w n false a) ∧ toNat w (neg w n false a) = FixpntSpec.neg n false (toNat w a) := by
+  obtain ⟨ht, htv⟩ := BB.twosC_spec hw hn h64 ha.shape
+  unfold neg FixpntSpec.neg FixpntSpec.finish FixpntSpec.val
+  simp only [Bool.false_and, Bool.false_eq_true, if_false]
+  exact ⟨ht, by rw [htv, ofSigned_neg]⟩
+
+/-- unary minus: the exact negation, wrapped in Modulo and clamped in Saturate arithmetic -/
+theorem neg_spec (hw : 0 < w) (hn : 0 < n) (h64 : Ok w n) (sat : Bool) {a : List Nat} (ha : Canon w n a) :
+    Canon w n (neg w n sat a) ∧ toNat w (neg w n sat a) = FixpntSpec.neg n sat (toNat w a) := by
+  cases sat
+  · exact neg_spec_mod hw hn h64 ha
+  · exact neg_spec_sat hw hn h64 ha
 
 /-- the rounding decision of the code, read on the pattern, is the round-half-even increment of the exact value -/
 theorem roundUp_rne (hw : 0 < w) {M r : Nat} {c : List Nat} (hc : Canon w M c) (hM : 0 < M) (hr : r < M) {p : Int}
@@ -465,8 +480,8 @@ theorem rne_divExact {r : Nat} {x y : Int} {X Y : Nat} (hX : (X : Int) = |x|) (h
 /-- `operator/=` in Modulo mode: the exact quotient a·2^rbits / b rounded to nearest even, wrapped into n bits -/
 theorem div_spec (hw : 0 < w) (hn : 0 < n) {r : Nat} (hr : r ≤ n) (h64 : Ok w (2 * n + 2 * r + 2 * n + 1)) {a b : List Nat}
     (ha : Canon w n a) (hb : Canon w n b) (hb0 : toNat w b ≠ 0) :
-    ∃ res, div w n r false a b = some res ∧ Canon w n res ∧
-      toNat w res = FixpntSpec.div n r false (toNat w a) (toNat w b) := by
+    Canon w n (div w n r false a b) ∧
+      toNat w (div w n r false a b) = FixpntSpec.div n r false (toNat w a) (toNat w b) := by
   generalize hAb : 2 * n + 2 * r + 2 * n = Ab at *
   have hAbpos : 0 < Ab := by omega
   have h64A : Ok w Ab := h64.mono (by omega)
@@ -484,12 +499,8 @@ theorem div_spec (hw : 0 < w) (hn : 0 < n) {r : Nat} (hr : r ≤ n) (h64 : Ok w 
   -- the quotient of the scaled magnitudes
   have hE0 : toNat w (BB.shl w Ab (if BB.sign w Ab (BB.assign w Ab n b) then BB.twosC w Ab (BB.assign w Ab n b) else BB.assign w Ab n b) ((r + n : Nat) : Int)) ≠ 0 := by
     rw [vE]; exact Nat.mul_ne_zero (by omega) (by have := Nat.two_pow_pos (r + n); omega)
-  obtain ⟨q, rr, eq, _, cq, _, vq, _⟩ := BB.divrem_spec hw hAbpos h64A (fun _ => h64) cD cE hE0 (by
-    rintro ⟨_, _, h, _⟩
-    rw [iD] at h
-    have : (0 : Int) ≤ ((X * 2 ^ (2 * (r + n)) : Nat) : Int) := by omega
-    have hp : (0 : Int) < ((2 ^ (Ab - 1) : Nat) : Int) := by exact_mod_cast Nat.two_pow_pos (Ab - 1)
-    omega)
+  obtain ⟨cq, _, vq, _⟩ := BB.divrem_spec hw hAbpos h64A (fun _ => h64) cD cE hE0
+  generalize hq : BB.divrem w Ab _ _ false = q at cq vq
   rw [iD, iE, ← Int.ofNat_tdiv] at vq
   have hQeq : X * 2 ^ (2 * (r + n)) / (Y * 2 ^ (r + n)) = X * 2 ^ r * 2 ^ n / Y := by
     have : X * 2 ^ (2 * (r + n)) = X * 2 ^ r * 2 ^ n * 2 ^ (r + n) := by
@@ -517,8 +528,7 @@ theorem div_spec (hw : 0 < w) (hn : 0 < n) {r : Nat} (hr : r ≤ n) (h64 : Ok w 
   -- assemble
   unfold div FixpntSpec.div FixpntSpec.finish FixpntSpec.divExact FixpntSpec.val
   simp only [Bool.false_eq_true, if_false]
-  rw [hAb, eq]
-  simp only
+  rw [hAb, hq]
   have ex : toSigned n (toNat w a) = toInt w n a := rfl
   have ey : toSigned n (toNat w b) = toInt w n b := rfl
   rw [ex, ey, hspec, BB.sign_neg hw hn ha, BB.sign_neg hw hn hb, ex, ey]
@@ -528,17 +538,17 @@ theorem div_spec (hw : 0 < w) (hn : 0 < n) {r : Nat} (hr : r ≤ n) (h64 : Ok w 
     simp only [hx, hyn, decide_true, decide_false, Bool.not_true, Bool.not_false, Bool.and_true, Bool.and_false, Bool.true_and,
       Bool.false_and, Bool.or_false, Bool.false_or, Bool.or_true, if_true, if_false, Bool.false_eq_true, beq_self_eq_true,
       Bool.true_eq_false, one_mul, neg_mul, BEq.rfl, beq_iff_eq, reduceCtorEq]
-  · exact ⟨_, rfl, assign_wrap hw hn hAbpos (by omega) ci vi⟩
+  · exact assign_wrap hw hn hAbpos (by omega) ci vi
   · obtain ⟨ht, htv⟩ := BB.twosC_spec hw hAbpos h64A ci.shape
-    refine ⟨_, rfl, assign_wrap hw hn hAbpos (by omega) ht ?_⟩
+    refine assign_wrap hw hn hAbpos (by omega) ht ?_
     rw [htv]
     refine (modEq_neg_nat _ _).trans ?_
     exact vi.neg
   · obtain ⟨ht, htv⟩ := BB.twosC_spec hw hAbpos h64A ci.shape
-    refine ⟨_, rfl, assign_wrap hw hn hAbpos (by omega) ht ?_⟩
+    refine assign_wrap hw hn hAbpos (by omega) ht ?_
     rw [htv]
     refine (modEq_neg_nat _ _).trans ?_
     exact vi.neg
-  · exact ⟨_, rfl, assign_wrap hw hn hAbpos (by omega) ci vi⟩
+  · exact assign_wrap hw hn hAbpos (by omega) ci vi
 
 end UVerif.Fixpnt
